@@ -33,6 +33,17 @@ CHECKS['C15'] = dict(
     technique='symbolic execution of the Python source + Z3 QF_NRA equivalence against a quantifier-free oracle',
 )
 
+CHECKS['C04'] = dict(
+    level='model_checking',
+    text='Symbolic execution of the real tm class and frame helpers on symbolic poses (axis-angle with |u|=1, theta in '
+         '[0, pi-1e-3], |p| <= 1e3): group laws for all triples, localToGlobal/globalToLocal as ref*rel / inv(ref)*x and '
+         'mutual inverses, and agreement of every documented constructor form on one symbolic pose, each as an '
+         'obligation decided per path by normal form + Z3. Exp/Log under composition are summarised by the contracts '
+         'C01 proves for the real functions.',
+    design='5/C04',
+    technique='symbolic execution of the Python source + Z3 QF_NRA per path; assume-guarantee summary of Exp/Log from C01',
+)
+
 NOT_APPLICABLE = {
 }
 
